@@ -386,7 +386,13 @@ class ClassObject(Object, Callable):
     @cached_property
     def bases(self):
         # type: () -> list[CallableProto]
-        return list(filter(None, (self.ctx.evaluate(r) for r in self.scope._bases)))  # type: ignore[misc]
+        result = []  # type: list[CallableProto]
+        for r in self.scope._bases:
+            value = self.ctx.evaluate(r)
+            # a base may have several alternative values; only classes have attribute tables
+            values = value.values if isinstance(value, CompositeValue) else [value]
+            result.extend(v for v in values if isinstance(v, (ClassObject, RuntimeName)))
+        return result
 
     @cached_property
     def _attrs(self):
